@@ -305,7 +305,7 @@ Proof.
 Qed.
 
 (* ================================================================== List.AppendMutable *)
-(* [list_appendmutable_prog_stmt] is FALSE as stated: a dangling view that points one past the end of the heap, at a repeated field of
+(* Without the liveness hypothesis [list_appendmutable_prog_stmt] would be FALSE: a dangling view that points one past the end of the heap, at a repeated field of
    the message type being allocated, comes alive when `v := new(T)` is executed before `*x.list` is read. Counterexample
    (one message type 0 with field 0 = repeated message 0, the empty heap, the view RField 0 0): Reflect.step answers ([], PPanic), the
    interpreter stores the new object in its own field 0 and returns it. *)
@@ -316,10 +316,6 @@ Lemma list_appendmutable_prog_counterexample :
 Proof.
   split; [vm_compute; reflexivity|]. split; [reflexivity|]. split; [reflexivity|].
   unfold vp_agrees. intros [H _]. vm_compute in H. discriminate.
-Qed.
-Lemma list_appendmutable_prog_stmt_false : ~ list_appendmutable_prog_stmt.
-Proof.
-  intro H. destruct list_appendmutable_prog_counterexample as [W [K [_ N]]]. exact (N (H _ _ _ _ W K)).
 Qed.
 
 (* true whenever allocating does not revive the view: *)
@@ -337,8 +333,7 @@ Proof.
 Qed.
 
 (* in particular for every live view (the invariant of the views a history hands out: vp_view_live_kept / vp_result_live) *)
-Lemma list_appendmutable_prog_partial : forall sch h t r, wf sch = true -> rp_heap_okb sch h = true ->
-  view_liveb h (PList t r) = true -> vp_agrees sch h (OLAppendMutable (PList t r)).
+Lemma list_appendmutable_prog_correct : list_appendmutable_prog_stmt.
 Proof.
   intros sch h t r Hwf Hok Hl. apply list_appendmutable_prog_gen; [exact Hwf|exact Hok|]. intros m _ R.
   destruct (liveb_list _ _ _ Hl) as [->|[l R']]; [reflexivity|congruence].
@@ -390,15 +385,9 @@ Qed.
 Lemma vp_agrees_default sch h o : vp_canon_step sch h o = Some (step sch h o) -> vp_agrees sch h o.
 Proof. unfold vp_agrees. intros ->. apply vp_res_rel_refl. Qed.
 
-(* [view_prog_correct_stmt] is FALSE as stated, by the counterexample of AppendMutable ([vp_op_okb] asks nothing of its view) *)
-Lemma view_prog_correct_stmt_false : ~ view_prog_correct_stmt.
-Proof.
-  intro H. destruct list_appendmutable_prog_counterexample as [W [K [O N]]]. exact (N (H _ _ _ W K O)).
-Qed.
 
 (* true with the view of AppendMutable live (like the view of Len) *)
-Lemma view_prog_correct_partial : forall sch h o, wf sch = true -> rp_heap_okb sch h = true -> vp_op_okb h o = true ->
-  (forall v, o = OLAppendMutable v -> view_liveb h v = true) -> vp_agrees sch h o.
+Lemma view_prog_correct : view_prog_correct_stmt.
 Proof.
   intros sch h o Hwf Hok Hop Ham.
   destruct o; try (apply vp_agrees_default; reflexivity);
@@ -410,7 +399,7 @@ Proof.
       | apply list_get_prog_correct; assumption
       | apply list_set_prog_correct; assumption
       | apply list_append_prog_correct; assumption
-      | apply list_appendmutable_prog_partial; [assumption|assumption|apply Ham; reflexivity]
+      | apply list_appendmutable_prog_correct; [assumption|assumption|apply Ham; reflexivity]
       | apply list_truncate_prog_correct; assumption
       | apply list_newelement_prog_correct; assumption
       | apply map_len_prog_correct; assumption
